@@ -439,7 +439,16 @@ class Schema(dict, metaclass=LogicalMeta):
             )
 
         if callable(deleter):
-            deleter(self)
+            # the user's deleter may fail after it has changed the instance: a deletion that raises leaves it as it was
+            before = dict(dict.items(self)), dict(self.__dict__)
+            try:
+                deleter(self)
+            except Exception:
+                super().clear()
+                super().update(before[0])
+                self.__dict__.clear()
+                self.__dict__.update(before[1])
+                raise
 
             if field.name in self:
                 super().__delitem__(field.name)
